@@ -19,7 +19,7 @@ REQUIRED_THEOREMS = [
     'normalize_right_leg_fails', 'dictToPaths_pathsToDict_single_partial',
     'dictToPaths_pathsToDict_dict_value_witness', 'dictToPaths_pathsToDict_distinct_heads_partial',
     'dictToPaths_pathsToDict_shared_head_regroups', 'dictToPaths_pathsToDict_perm',
-    'dictToPaths_pathsToDict_prefix_witness',
+    'dictToPaths_pathsToDict_prefix_witness', 'hierarchyDepth_pathsToDict_perm',
 ]
 ANCHORS = [
     ('vivarium/core/store.py', ['Store.add_node']),
@@ -321,6 +321,19 @@ def run_impl(case):
             hd = S.hierarchy_depth(copy.deepcopy(d0))
             if hd != dict(pl) or list(hd.keys()) != [pp for pp, _ in pl]:
                 fails.append('hierarchy_depth disagrees with dict_to_paths')
+            # the converse (C17.dictToPaths_pathsToDict_perm) on the implementation: the enumeration of a
+            # dictionary without empty sub-dictionaries is a prefix-free list of non-dictionary leaves; given
+            # in any other order it is still rebuilt into a dictionary with exactly those leaves
+            for shuffled in (list(reversed(pl)), pl[1::2] + pl[0::2]):
+                try:
+                    pl2 = T.dict_to_paths((), T.paths_to_dict(copy.deepcopy(shuffled)))
+                except Exception as e:
+                    fails.append(f'paths_to_dict/dict_to_paths raised {exc_name(e)} on a reordered prefix-free list')
+                    break
+                if sorted(map(repr, pl2)) != sorted(map(repr, pl)):
+                    fails.append('dict_to_paths(paths_to_dict(pl)) is not a permutation of the reordered '
+                                 'prefix-free list pl')
+                    break
             # the same tree built from another dictionary type has the same leaves (every helper descends into
             # anything that is a dict)
             import collections
